@@ -2,6 +2,7 @@ import SaModel.Lemmas.C12Decode
 import SaModel.Lemmas.C12Struct
 import SaModel.Lemmas.C12Read
 import SaModel.Lemmas.C12Batch
+import SaModel.Lemmas.C12WF
 import SaModel.Props.C02
 import SaModel.Props.C13
 /-
@@ -52,6 +53,11 @@ the child as 2 rows long, so row 1 of the slice decodes while row 1 of the array
 theorem sliceable_needed :
     let a : Arr := .struct 2 none (.cons ⟨"c", false, []⟩ (.struct 1 none .nil) .nil)
     sliceable a = false ∧ 0 + 2 ≤ lenOf a ∧ decodeAt (sliceView a 0 2) 1 ≠ decodeAt a (0 + 1) := by decide
+
+/-- `sliceable` is implied by Arrow validity as spelled out for C03 (`Spec.WF`, which C03 `C03_wf` proves of every array
+the crate's builders return): every such array may be sliced with any window inside its bounds -/
+theorem WF_sliceable (f : Field) (a : Arr) (h : WF f a = true) : sliceable a = true :=
+  Lemmas.C12.WF_sliceable f a h
 
 /-! ### slices of slices -/
 
@@ -139,6 +145,13 @@ theorem batch_read_slice (cols : ArrFields) (len o l i : Nat) (lv : LVal)
   · rw [SaModel.Props.C13.get_eq]; simp only [show o + i < len by omega, if_true]
   · exact read_slice (batch len cols) o l i lv hi h hsf hd hn hp hu
 
+/-- the one-column record reader the `slice` suite drives (`Reader.record`, `Deserializer::from_marrow(&[field], &[view])`)
+is the one-column batch: the record reader over the sliced column is the slice of the record reader over the column -/
+theorem record_slice (fm : FieldMeta) (col : Arr) (o l : Nat) (h : o + l ≤ lenOf col) (hs : sliceable col = true)
+    (hn : new Fixes.all col = .ok ()) :
+    record fm (sliceView col o l) = sliceView (record fm col) o l := by
+  simp only [record, sliceView, sliceFields, shiftV, vlen_eq_lenOf Fixes.all _ (new_slice col o l h hs hn), lenOf_slice col o l h]
+
 /-! ### non-vacuity -/
 
 /-- a window that starts inside a bitmap byte, on a nullable list of nullable ints -/
@@ -163,6 +176,11 @@ example : sliceable fslExample = true ∧ 1 + 3 ≤ lenOf fslExample ∧
     decodeAt fslExample 1 ≠ decodeAt fslExample 3 ∧ decodeAt fslExample 2 = .ok .null ∧
     (List.range 3).map (decodeAt (sliceView fslExample 1 3)) = (List.range 3).map (fun i => decodeAt fslExample (1 + i)) ∧
     sliceView (sliceView fslExample 1 3) 1 2 = sliceView fslExample 2 2 := by decide
+
+/-- the example is a valid Arrow array of its field in the sense of C03 -/
+example : WF (.mk "c" (.fixedSizeList (.mk "element" (.struct (.cons (.mk "x" .int8 true [])
+    (.cons (.mk "y" (.fixedSizeList (.mk "element" .boolean false []) 3) false []) .nil))) true []) 2) true []) fslExample = true := by
+  decide
 
 /-- the reader on the same example: all hypotheses of `read_slice` hold for slot 1 + 2, and the read succeeds -/
 example : readAny Fixes.all (sliceView fslExample 1 3) 2 = readAny Fixes.all fslExample (1 + 2) ∧
